@@ -19,6 +19,11 @@ from simworld import Violation, SimUnsupported
 __all__ = ['COMM_WORLD', 'COMM_NULL', 'Comm']
 
 
+class MPIUsageError(ValueError, TypeError):
+    """What mpi4py itself would raise for this call (bad buffer, wrong count, invalid rank...):
+    the program under test is wrong, the simulation is not."""
+
+
 # ---------------------------------------------------------------------------
 # reduction operations and datatypes
 # ---------------------------------------------------------------------------
@@ -58,6 +63,11 @@ class Datatype:
     def Get_extent(self):
         return (0, self.size)
 
+    def __getattr__(self, name):
+        if name.startswith('__'):
+            raise AttributeError(name)
+        raise SimUnsupported('simulated MPI.Datatype has no %s' % name)
+
     def __repr__(self):
         return 'MPI.' + self.name
 
@@ -79,6 +89,22 @@ FLOAT = Datatype('FLOAT', 4, np.float32)
 DOUBLE = Datatype('DOUBLE', 8, np.float64)
 COMPLEX = C_FLOAT_COMPLEX = Datatype('C_FLOAT_COMPLEX', 8, np.complex64)
 DOUBLE_COMPLEX = C_DOUBLE_COMPLEX = Datatype('C_DOUBLE_COMPLEX', 16, np.complex128)
+
+def _canon(dt):
+    """type signature class: (kind, base item size); complex counts as pairs of floats, char/byte kinds by size"""
+    k = np.dtype(dt.npdt)
+    if k.kind == 'c':
+        return ('f', k.itemsize // 2)
+    if k.kind == 'b':
+        return ('u', 1)
+    if k.kind in 'iu' and k.itemsize == 1:
+        return ('u', 1)
+    return (k.kind, k.itemsize)
+
+
+def _same_type(a, b):
+    return _canon(a) == _canon(b)
+
 
 _BY_NP = {
     np.dtype(np.float64): DOUBLE, np.dtype(np.float32): FLOAT,
@@ -136,11 +162,11 @@ def _as_array(obj, writable):
         try:
             a = np.asarray(memoryview(obj))
         except TypeError:
-            raise TypeError("a bytes-like object is required, not '%s'" % type(obj).__name__)
+            raise MPIUsageError("a bytes-like object is required, not '%s'" % type(obj).__name__)
     if not (a.flags.c_contiguous or a.flags.f_contiguous):
-        raise ValueError('ndarray is not contiguous')     # what mpi4py raises
+        raise MPIUsageError('ndarray is not contiguous')     # what mpi4py raises
     if writable and not a.flags.writeable:
-        raise BufferError('Object is not writable')
+        raise MPIUsageError('Object is not writable')
     return a
 
 
@@ -168,7 +194,7 @@ def parse_buf(spec, writable=False, vector=False):
     if isinstance(spec, (list, tuple)):
         items = list(spec)
         if not 1 <= len(items) <= 4:
-            raise ValueError('message: expecting 1 to 4 items')
+            raise MPIUsageError('message: expecting 1 to 4 items')
         obj = items[0]
         rest = items[1:]
         if rest and (isinstance(rest[-1], Datatype) or isinstance(rest[-1], str)):
@@ -187,7 +213,7 @@ def parse_buf(spec, writable=False, vector=False):
         elif len(rest) == 2:
             b.counts, b.displs = rest
         elif len(rest) > 2:
-            raise ValueError('message: too many items')
+            raise MPIUsageError('message: too many items')
     else:
         obj = spec
     a = _as_array(obj, writable)
@@ -208,17 +234,17 @@ def parse_buf(spec, writable=False, vector=False):
         else:
             b.displs = [int(x) for x in np.atleast_1d(b.displs)]
         if len(b.displs) != len(b.counts):
-            raise ValueError('message: counts and displs of different length')
+            raise MPIUsageError('message: counts and displs of different length')
         b.count = sum(b.counts)
     else:
         if b.bytes.size % dt.size != 0:
-            raise ValueError('message: buffer length %d is not a multiple of datatype size %d'
+            raise MPIUsageError('message: buffer length %d is not a multiple of datatype size %d'
                              % (b.bytes.size, dt.size))
         n = b.bytes.size // dt.size
         if count is None:
             count = n
         elif count > n:
-            raise ValueError('message: buffer too small for requested count')
+            raise MPIUsageError('message: buffer too small for requested count')
         b.count = count
     return b
 
@@ -227,6 +253,18 @@ def _overlap(x, y):
     if x.bytes.size == 0 or y.bytes.size == 0:
         return False
     return bool(np.may_share_memory(x.bytes, y.bytes)) and bool(np.shares_memory(x.bytes, y.bytes))
+
+
+def _check_private(bufs, op):
+    """send/recv buffers of different ranks must not share memory: real ranks are separate processes"""
+    for i in range(len(bufs)):
+        for j in range(i + 1, len(bufs)):
+            a, b = bufs[i], bufs[j]
+            if a is not None and b is not None and a.size and b.size and np.may_share_memory(a, b) \
+                    and np.shares_memory(a, b):
+                raise SimUnsupported('ranks %d and %d pass overlapping buffers to %s: the code under test keeps '
+                                     'process-global mutable state, which the one-interpreter simulation cannot '
+                                     'separate' % (i, j, op))
 
 
 def _pcopy(obj):
@@ -261,7 +299,12 @@ def _fold(world, op, vals, arrays):
 # ---------------------------------------------------------------------------
 # communicators
 # ---------------------------------------------------------------------------
-class Comm:
+class _CommMeta(type):
+    def __instancecheck__(cls, obj):
+        return type.__instancecheck__(cls, obj) or type(obj).__name__ in ('_WorldProxy', '_SelfProxy')
+
+
+class Comm(metaclass=_CommMeta):
     """A communicator handle as held by one rank: (context id, ordered members)."""
 
     def __init__(self, world, cid, members, wrank, dims=None):
@@ -334,7 +377,7 @@ class Comm:
     def _check_root(self, root):
         root = int(root)
         if not 0 <= root < len(self._members):
-            raise ValueError('invalid root %d for communicator of size %d'
+            raise MPIUsageError('invalid root %d for communicator of size %d'
                              % (root, len(self._members)))
         return root
 
@@ -513,129 +556,158 @@ class Comm:
         return self._coll('allreduce', (op.name,), _pcopy(sendobj), complete)
 
     # point-to-point (object and buffer) -------------------------------------------
-    # Standard-mode sends are modelled as buffered in 'eager' completion mode and as
-    # synchronous (return only when matched) in 'sync' mode; both are legal MPI
-    # behaviours, and a program that needs buffering deadlocks under the second.
-    def _post(self, dest, tag, payload, kind):
+    # Messages and posted receives are matched in order (non-overtaking): a message is paired with the
+    # earliest posted matching receive, a receive with the earliest matching message.  Standard-mode sends
+    # are buffered in 'eager' completion mode and synchronous (complete only when matched) in 'sync' mode;
+    # both are legal MPI behaviours, and a program that relies on buffering deadlocks under the second.
+    def _boxes(self, rank):
+        w = self._world
+        return (w.mailbox.setdefault((self._cid, rank), []), w.mailbox.setdefault(('posted', self._cid, rank), []))
+
+    def _post_send(self, dest, tag, payload, kind):
         w = self._world
         dest = int(dest)
         if dest == PROC_NULL:
             return None
         if not 0 <= dest < len(self._members):
-            raise ValueError('invalid destination rank %d' % dest)
+            raise MPIUsageError('invalid destination rank %d' % dest)
         msg = dict(src=self._rank, tag=int(tag), payload=payload, kind=kind, matched=False)
-        w.mailbox.setdefault((self._cid, dest), []).append(msg)
+        msgs, posted = self._boxes(dest)
+        for req in posted:
+            if req['msg'] is None and req['source'] in (ANY_SOURCE, msg['src']) and req['tag'] in (ANY_TAG, msg['tag']):
+                req['msg'] = msg
+                msg['matched'] = True
+                posted.remove(req)
+                break
+        else:
+            msgs.append(msg)
         w.notify(self._wrank)
         return msg
 
-    def _match(self, source, tag, remove=True):
-        box = self._world.mailbox.get((self._cid, self._rank), [])
-        for i, m in enumerate(box):
-            if (source in (ANY_SOURCE, m['src'])) and (tag in (ANY_TAG, m['tag'])):
-                if remove:
-                    box.pop(i)
-                    m['matched'] = True
-                return m
+    def _post_recv(self, source, tag):
+        w = self._world
+        req = dict(source=int(source), tag=int(tag), msg=None)
+        if req['source'] == PROC_NULL:
+            req['msg'] = dict(src=PROC_NULL, tag=ANY_TAG, payload=None, kind='null', matched=True)
+            return req
+        msgs, posted = self._boxes(self._rank)
+        for m_ in msgs:
+            if req['source'] in (ANY_SOURCE, m_['src']) and req['tag'] in (ANY_TAG, m_['tag']):
+                req['msg'] = m_
+                m_['matched'] = True
+                msgs.remove(m_)
+                break
+        else:
+            posted.append(req)
+        w.notify(self._wrank)
+        return req
+
+    def _peek(self, source, tag):
+        msgs, _ = self._boxes(self._rank)
+        for m_ in msgs:
+            if int(source) in (ANY_SOURCE, m_['src']) and int(tag) in (ANY_TAG, m_['tag']):
+                return m_
         return None
 
-    def _send_blocking(self, dest, tag, payload, kind, desc):
+    def _wait_send(self, msg, what):
         w = self._world
-        msg = self._post(dest, tag, payload, kind)
-        if msg is None:
-            return
-        if w.mode == 'sync':
-            w.wait_until(self._wrank, lambda: msg['matched'], ('send-wait', self._cid, int(dest), int(tag)))
+        if msg is not None and w.mode == 'sync':
+            w.wait_until(self._wrank, lambda: msg['matched'], (what, self._cid))
         else:
-            w.preempt(self._wrank, 'p2p', ('send', self._cid, int(dest), int(tag)))
+            w.preempt(self._wrank, 'p2p', (what, self._cid))
 
-    def _recv_blocking(self, source, tag, desc):
-        w = self._world
-        found = {}
+    def _wait_recv(self, req, what):
+        self._world.wait_until(self._wrank, lambda: req['msg'] is not None, (what, self._cid, req['source'], req['tag']))
+        return req['msg']
 
-        def pred():
-            if 'm' not in found:
-                m = self._match(source, tag)
-                if m is not None:
-                    found['m'] = m
-            return 'm' in found
-        w.wait_until(self._wrank, pred, ('recv', self._cid, int(source), int(tag)))
-        return found['m']
+    def _deliver_obj(self, m_, status):
+        if m_['kind'] == 'null':
+            return None
+        if m_['kind'] != 'obj':
+            raise Violation('buffer-mismatch', dict(op='recv', why='buffer message received with object recv'))
+        if status is not None:
+            status._set(m_)
+        return m_['payload']
+
+    def _deliver_buf(self, m_, buf, status):
+        if m_['kind'] == 'null':
+            return
+        r = parse_buf(buf, writable=True)
+        if m_['kind'] != 'buf':
+            raise Violation('buffer-mismatch', dict(op='Recv', why='object message received with buffer Recv'))
+        dt, data = m_['payload']
+        if not _same_type(dt, r.dt) or data.size > r.nbytes():
+            raise Violation('buffer-mismatch', dict(op='Recv', sent=(dt.name, int(data.size)),
+                                                    recv=(r.dt.name, int(r.nbytes()))))
+        r.bytes[:data.size] = data
+        if status is not None:
+            status._set(m_)
+
+    def _bufmsg(self, buf):
+        b = parse_buf(buf)
+        return (b.dt, b.bytes[:b.nbytes()].copy())
 
     def send(self, obj, dest, tag=0):
-        self._send_blocking(dest, tag, _pcopy(obj), 'obj', 'send')
+        self._wait_send(self._post_send(dest, tag, _pcopy(obj), 'obj'), 'send')
 
     ssend = send
     bsend = send
 
     def recv(self, buf=None, source=ANY_SOURCE, tag=ANY_TAG, status=None):
-        if int(source) == PROC_NULL:
-            return None
-        m = self._recv_blocking(int(source), int(tag), 'recv')
-        if m['kind'] != 'obj':
-            raise Violation('buffer-mismatch', dict(op='recv', why='buffer message received with object recv'))
-        if status is not None:
-            status._set(m)
-        return m['payload']
+        return self._deliver_obj(self._wait_recv(self._post_recv(source, tag), 'recv'), status)
 
     def Send(self, buf, dest, tag=0):
-        b = parse_buf(buf)
-        self._send_blocking(dest, tag, (b.dt.name, b.bytes[:b.nbytes()].copy()), 'buf', 'Send')
+        self._wait_send(self._post_send(dest, tag, self._bufmsg(buf), 'buf'), 'Send')
 
     Ssend = Send
     Bsend = Send
 
     def Recv(self, buf, source=ANY_SOURCE, tag=ANY_TAG, status=None):
-        if int(source) == PROC_NULL:
-            return
-        r = parse_buf(buf, writable=True)
-        m = self._recv_blocking(int(source), int(tag), 'Recv')
-        if m['kind'] != 'buf':
-            raise Violation('buffer-mismatch', dict(op='Recv', why='object message received with buffer Recv'))
-        name, data = m['payload']
-        if name != r.dt.name or data.size > r.nbytes():
-            raise Violation('buffer-mismatch', dict(op='Recv', sent=(name, int(data.size)),
-                                                    recv=(r.dt.name, int(r.nbytes()))))
-        r.bytes[:data.size] = data
-        if status is not None:
-            status._set(m)
+        self._deliver_buf(self._wait_recv(self._post_recv(source, tag), 'Recv'), buf, status)
 
     def sendrecv(self, sendobj, dest, sendtag=0, recvbuf=None, source=ANY_SOURCE, recvtag=ANY_TAG, status=None):
-        self._post(dest, sendtag, _pcopy(sendobj), 'obj')
-        return self.recv(None, source, recvtag, status)
+        req = self._post_recv(source, recvtag)
+        self._post_send(dest, sendtag, _pcopy(sendobj), 'obj')
+        return self._deliver_obj(self._wait_recv(req, 'sendrecv'), status)
 
     def Sendrecv(self, sendbuf, dest, sendtag=0, recvbuf=None, source=ANY_SOURCE, recvtag=ANY_TAG, status=None):
-        b = parse_buf(sendbuf)
-        self._post(dest, sendtag, (b.dt.name, b.bytes[:b.nbytes()].copy()), 'buf')
-        self.Recv(recvbuf, source, recvtag, status)
+        req = self._post_recv(source, recvtag)
+        self._post_send(dest, sendtag, self._bufmsg(sendbuf), 'buf')
+        self._deliver_buf(self._wait_recv(req, 'Sendrecv'), recvbuf, status)
 
     def isend(self, obj, dest, tag=0):
-        return Request(self, 'send', self._post(dest, tag, _pcopy(obj), 'obj'))
+        return Request(self, 'send', msg=self._post_send(dest, tag, _pcopy(obj), 'obj'))
+
+    issend = isend
 
     def Isend(self, buf, dest, tag=0):
-        b = parse_buf(buf)
-        return Request(self, 'send', self._post(dest, tag, (b.dt.name, b.bytes[:b.nbytes()].copy()), 'buf'))
+        return Request(self, 'send', msg=self._post_send(dest, tag, self._bufmsg(buf), 'buf'))
+
+    Issend = Isend
 
     def irecv(self, buf=None, source=ANY_SOURCE, tag=ANY_TAG):
-        return Request(self, 'recv', None, source=int(source), tag=int(tag))
+        return Request(self, 'recv', req=self._post_recv(source, tag))
 
     def Irecv(self, buf, source=ANY_SOURCE, tag=ANY_TAG):
-        return Request(self, 'Recv', None, source=int(source), tag=int(tag), buf=buf)
+        parse_buf(buf, writable=True)
+        return Request(self, 'Recv', req=self._post_recv(source, tag), buf=buf)
 
     def iprobe(self, source=ANY_SOURCE, tag=ANY_TAG, status=None):
-        self._world.preempt(self._wrank, 'p2p', ('iprobe', self._cid, int(source), int(tag)))
-        m = self._match(int(source), int(tag), remove=False)
-        if m is not None and status is not None:
-            status._set(m)
-        return m is not None
+        # a fruitless poll yields virtual time to the other ranks (a spinning rank must not starve the sender)
+        self._world.preempt(self._wrank, 'p2p', ('iprobe', self._cid, int(source), int(tag)), yield_time=True)
+        m_ = self._peek(source, tag)
+        if m_ is not None and status is not None:
+            status._set(m_)
+        return m_ is not None
 
     Iprobe = iprobe
 
     def probe(self, source=ANY_SOURCE, tag=ANY_TAG, status=None):
-        self._world.wait_until(self._wrank, lambda: self._match(int(source), int(tag), remove=False) is not None,
+        self._world.wait_until(self._wrank, lambda: self._peek(source, tag) is not None,
                                ('probe', self._cid, int(source), int(tag)))
-        m = self._match(int(source), int(tag), remove=False)
+        m_ = self._peek(source, tag)
         if status is not None:
-            status._set(m)
+            status._set(m_)
         return True
 
     Probe = probe
@@ -648,7 +720,7 @@ class Comm:
         def complete(p):
             src = p[root]
             for i, x in enumerate(p):
-                if x.dt.name != src.dt.name or x.nbytes() != src.nbytes():
+                if not _same_type(x.dt, src.dt) or x.nbytes() != src.nbytes():
                     raise Violation('buffer-mismatch', dict(op='Bcast', rank=i,
                                                             root=(src.dt.name, src.count),
                                                             got=(x.dt.name, x.count)))
@@ -665,19 +737,20 @@ class Comm:
         s = parse_buf(sendbuf)
         r = parse_buf(recvbuf, writable=True)
         if s.count % n or r.count % n:
-            raise ValueError('message: buffer count is not a multiple of the communicator size')
+            raise MPIUsageError('message: buffer count is not a multiple of the communicator size')
         cid = self._cid
 
         def complete(p):
             sb = [x[0].nbytes() // n for x in p]
             rb = [x[1].nbytes() // n for x in p]
             if len(set(sb)) != 1 or len(set(rb)) != 1 or sb[0] != rb[0] or \
-                    len({x[0].dt.name for x in p} | {x[1].dt.name for x in p}) != 1:
+                    len({_canon(x[0].dt) for x in p} | {_canon(x[1].dt) for x in p}) != 1:
                 raise Violation('buffer-mismatch', dict(op='Alltoall', context=cid,
                                                         send_block_bytes=sb, recv_block_bytes=rb))
             for i, (si, ri) in enumerate(p):
                 if _overlap(si, ri):
                     raise Violation('buffer-alias', dict(op='Alltoall', rank=i))
+            _check_private([x[1].bytes for x in p], 'Alltoall')
             b = sb[0]
             for j in range(n):
                 rj = p[j][1].bytes
@@ -691,7 +764,7 @@ class Comm:
         r = parse_buf(recvbuf, writable=True)
         if sendbuf is IN_PLACE:
             if r.count % n:
-                raise ValueError('message: buffer count is not a multiple of the communicator size')
+                raise MPIUsageError('message: buffer count is not a multiple of the communicator size')
             blk = r.nbytes() // n
             s = Buf()
             s.arr = None
@@ -707,12 +780,13 @@ class Comm:
             sb = [x[0].nbytes() for x in p]
             rb = [x[1].nbytes() for x in p]
             if len(set(sb)) != 1 or any(q != sb[0] * n for q in rb) or \
-                    len({x[0].dt.name for x in p} | {x[1].dt.name for x in p}) != 1:
+                    len({_canon(x[0].dt) for x in p} | {_canon(x[1].dt) for x in p}) != 1:
                 raise Violation('buffer-mismatch', dict(op='Allgather', context=cid,
                                                         send_bytes=sb, recv_bytes=rb))
             for i, (si, ri) in enumerate(p):
                 if si.arr is not None and _overlap(si, ri):
                     raise Violation('buffer-alias', dict(op='Allgather', rank=i))
+            _check_private([x[1].bytes for x in p], 'Allgather')
             b = sb[0]
             for j in range(n):
                 rj = p[j][1].bytes
@@ -738,7 +812,7 @@ class Comm:
                     rr.displs = [c * i for i in range(n)]
                 e = rr.dt.size
                 for i in range(n):
-                    if p[i][0].nbytes() != rr.counts[i] * e or p[i][0].dt.name != rr.dt.name:
+                    if p[i][0].nbytes() != rr.counts[i] * e or not _same_type(p[i][0].dt, rr.dt):
                         raise Violation('buffer-mismatch', dict(
                             op='Allgatherv', context=cid, receiver=j, sender=i,
                             sent_bytes=p[i][0].nbytes(), expected_bytes=rr.counts[i] * e))
@@ -763,12 +837,12 @@ class Comm:
         for b in (s, r):
             if b.counts is None:
                 if b.count % n:
-                    raise ValueError('message: buffer count is not a multiple of the communicator size')
+                    raise MPIUsageError('message: buffer count is not a multiple of the communicator size')
                 c = b.count // n
                 b.counts = [c] * n
                 b.displs = [c * i for i in range(n)]
             if len(b.counts) != n:
-                raise ValueError('message: expecting %d counts, got %d' % (n, len(b.counts)))
+                raise MPIUsageError('message: expecting %d counts, got %d' % (n, len(b.counts)))
         cid = self._cid
 
         def complete(p):
@@ -778,7 +852,7 @@ class Comm:
                     raise Violation('buffer-alias', dict(op='Alltoallv', rank=i))
                 for j in range(n):
                     rj = p[j][1]
-                    if si.counts[j] * si.dt.size != rj.counts[i] * rj.dt.size or si.dt.name != rj.dt.name:
+                    if si.counts[j] * si.dt.size != rj.counts[i] * rj.dt.size or not _same_type(si.dt, rj.dt):
                         raise Violation('buffer-mismatch', dict(
                             op='Alltoallv', context=cid, sender=i, receiver=j,
                             sent=(si.dt.name, si.counts[j]), expected=(rj.dt.name, rj.counts[i])))
@@ -812,7 +886,7 @@ class Comm:
             rr = p[root][1]
             sb = [x[0].nbytes() for x in p]
             if len(set(sb)) != 1 or rr.nbytes() != n * sb[0] or \
-                    len({x[0].dt.name for x in p} | {rr.dt.name}) != 1:
+                    len({_canon(x[0].dt) for x in p} | {_canon(rr.dt)}) != 1:
                 raise Violation('buffer-mismatch', dict(op='Gather', context=cid, send_bytes=sb,
                                                         recv_bytes=rr.nbytes()))
             b = sb[0]
@@ -845,7 +919,7 @@ class Comm:
             e = rr.dt.size
             spans = []
             for i in range(n):
-                if p[i][0].nbytes() != rr.counts[i] * e or p[i][0].dt.name != rr.dt.name:
+                if p[i][0].nbytes() != rr.counts[i] * e or not _same_type(p[i][0].dt, rr.dt):
                     raise Violation('buffer-mismatch', dict(
                         op='Gatherv', context=cid, sender=i, sent=(p[i][0].dt.name, p[i][0].count),
                         expected=(rr.dt.name, rr.counts[i])))
@@ -906,7 +980,7 @@ class Comm:
             data = ss.bytes.copy()
             for i in range(n):
                 rr = p[i][1]
-                if rr.nbytes() < ss.counts[i] * e or rr.dt.name != ss.dt.name:
+                if rr.nbytes() < ss.counts[i] * e or not _same_type(rr.dt, ss.dt):
                     raise Violation('buffer-mismatch', dict(op='Scatterv', context=cid, receiver=i,
                                                             sent=(ss.dt.name, ss.counts[i]), recv=(rr.dt.name, rr.count)))
                 lo = ss.displs[i] * e
@@ -1001,12 +1075,13 @@ class Status:
         self.source = ANY_SOURCE
         self.tag = ANY_TAG
         self.count = 0
+        self.error = SUCCESS
 
-    def _set(self, m):
-        self.source = m['src']
-        self.tag = m['tag']
-        p = m['payload']
-        self.count = int(p[1].size) if m['kind'] == 'buf' else 0
+    def _set(self, m_):
+        self.source = m_['src']
+        self.tag = m_['tag']
+        p = m_['payload']
+        self.count = int(p[1].size) if m_['kind'] == 'buf' else 0
 
     def Get_source(self):
         return self.source
@@ -1014,27 +1089,38 @@ class Status:
     def Get_tag(self):
         return self.tag
 
+    def Get_error(self):
+        return self.error
+
     def Get_count(self, datatype=BYTE):
         return self.count // datatype.size
 
+    def __getattr__(self, name):
+        if name.startswith('__'):
+            raise AttributeError(name)
+        raise SimUnsupported('simulated MPI.Status has no %s' % name)
+
 
 class Request:
-    def __init__(self, comm, kind, msg, source=None, tag=None, buf=None):
+    """A non-blocking operation.  The receive is posted when irecv/Irecv is called (not at wait),
+    so that matching follows posting order as the standard requires."""
+
+    def __init__(self, comm, kind, msg=None, req=None, buf=None):
         self._comm = comm
         self._kind = kind
         self._msg = msg
-        self._source = source
-        self._tag = tag
+        self._req = req
         self._buf = buf
         self._done = False
         self._result = None
 
-    def _complete_recv(self, status):
+    def _finish_recv(self, status):
         c = self._comm
+        m_ = self._req['msg']
         if self._kind == 'recv':
-            self._result = c.recv(None, self._source, self._tag, status)
+            self._result = c._deliver_obj(m_, status)
         else:
-            c.Recv(self._buf, self._source, self._tag, status)
+            c._deliver_buf(m_, self._buf, status)
         self._done = True
 
     def wait(self, status=None):
@@ -1042,42 +1128,88 @@ class Request:
             return self._result
         c = self._comm
         if self._kind == 'send':
-            msg = self._msg
-            if msg is not None and c._world.mode == 'sync':
-                c._world.wait_until(c._wrank, lambda: msg['matched'], ('wait-send', c._cid))
-            else:
-                c._world.preempt(c._wrank, 'p2p', ('wait-send', c._cid))
+            c._wait_send(self._msg, 'wait-send')
             self._done = True
             return None
-        self._complete_recv(status)
+        c._wait_recv(self._req, 'wait-recv')
+        self._finish_recv(status)
         return self._result
 
     Wait = wait
+
+    def _complete_now(self):
+        c = self._comm
+        if self._kind == 'send':
+            return self._msg is None or self._msg['matched'] or c._world.mode != 'sync'
+        return self._req['msg'] is not None
 
     def test(self, status=None):
         c = self._comm
         if self._done:
             return (True, self._result)
-        c._world.preempt(c._wrank, 'p2p', ('test', c._cid))
-        if self._kind == 'send':
-            if self._msg is None or self._msg['matched'] or c._world.mode != 'sync':
-                self._done = True
-                return (True, None)
+        c._world.preempt(c._wrank, 'p2p', ('test', c._cid), yield_time=True)
+        if not self._complete_now():
             return (False, None)
-        if c._match(self._source, self._tag, remove=False) is not None:
-            self._complete_recv(status)
-            return (True, self._result)
-        return (False, None)
+        if self._kind == 'send':
+            self._done = True
+            return (True, None)
+        self._finish_recv(status)
+        return (True, self._result)
 
     def Test(self, status=None):
         return self.test(status)[0]
 
+    def Cancel(self):
+        raise SimUnsupported('Request.Cancel is not modelled')
+
+    def Free(self):
+        pass
+
     @staticmethod
     def Waitall(requests, statuses=None):
-        for r in requests:
-            r.wait()
+        """Completes when all requests are complete, whatever their order in the list."""
+        reqs = [r for r in requests if r is not None and not r._done]
+        if not reqs:
+            return True
+        c = reqs[0]._comm
+        c._world.wait_until(c._wrank, lambda: all(r._complete_now() for r in reqs), ('waitall', c._cid, len(reqs)))
+        for r in reqs:
+            if r._kind == 'send':
+                r._done = True
+            else:
+                r._finish_recv(None)
+        return True
 
-    waitall = Waitall
+    @staticmethod
+    def waitall(requests, statuses=None):
+        Request.Waitall(requests, statuses)
+        return [r._result for r in requests]
+
+    @staticmethod
+    def Waitany(requests, status=None):
+        reqs = [r for r in requests if r is not None and not r._done]
+        if not reqs:
+            return UNDEFINED
+        c = reqs[0]._comm
+        c._world.wait_until(c._wrank, lambda: any(r._complete_now() for r in reqs), ('waitany', c._cid, len(reqs)))
+        for i, r in enumerate(requests):
+            if r is not None and not r._done and r._complete_now():
+                if r._kind == 'send':
+                    r._done = True
+                else:
+                    r._finish_recv(status)
+                return i
+        return UNDEFINED
+
+    @staticmethod
+    def waitany(requests, status=None):
+        i = Request.Waitany(requests, status)
+        return (i, None if i == UNDEFINED else requests[i]._result)
+
+    def __getattr__(self, name):
+        if name.startswith('__'):
+            raise AttributeError(name)
+        raise SimUnsupported('simulated MPI.Request has no %s' % name)
 
 
 Intracomm = Comm
